@@ -83,6 +83,8 @@ def run(c):
             out.setdefault(r["key"], []).append(r["uid"])
         return out
 
+    cov_types = {"after_failed": set(), "after_ok": set(), "list_first": set(), "list_first_reporting": set()}
+
     def check_oracles(d, seed):
         multi_vals = {d["tag_values"].get(n) for n in multi_names}
         node_tags = d["node_tags"]
@@ -111,7 +113,61 @@ def run(c):
                        observed=got, expected="a redefinition error")
             if len(set(said)) != len(said):
                 c.coverage["files_with_a_repeated_bundle_import"] = c.coverage.get("files_with_a_repeated_bundle_import", 0) + 1
+        # what a rule reports does not depend on the engine's load history: the same stand-alone file on a fresh engine and on
+        # an engine that loaded a file without any report before
+        rule_src = {}
+        for rf in d["files"]:
+            for g in rf["main"]["groups"]:
+                for r in g["rules"]:
+                    rule_src[str(r["uid"])] = (rf["main"], r)
+        for u, alone in sorted(d["acc"].items(), key=lambda x: int(x[0])):
+            after = (d.get("acc_after") or {}).get(u)
+            c.coverage["rules_measured_on_an_engine_with_history"] = c.coverage.get("rules_measured_on_an_engine_with_history", 0) + 1
+            if after is not None and sorted(after) != sorted(alone):
+                sf, r = rule_src.get(u, ({}, {}))
+                c.fail("oracle", "a rule loaded as the FIRST file of an engine reports other nodes than the same file loaded after a file that "
+                       "reports nothing (what Run applies is the rules of the loaded groups, whatever the number of Load calls)",
+                       input={"seed": seed, "rule_uid": int(u), "rule": r, "pattern": d["syntax_pats"][r["pat"]] if r.get("kind") == "syntax" else None,
+                              "declarations_of_file": {k: sf.get(k) for k in ("fns", "ksize", "marker")}},
+                       observed={"first_load_of_the_engine": sorted(alone), "after_another_load": sorted(after)}, expected="the same nodes")
+        marker_filters = set(d.get("marker_filters") or [])
+
+        def marker_use(rf):
+            """(has a rule naming the file's own type, such a rule comes before the first rule that fails to load)"""
+            has = before_bad = False
+            seen_bad = False
+            for g in rf["main"]["groups"]:
+                for r in g["rules"]:
+                    if r["kind"] == "bad":
+                        seen_bad = True
+                    elif r["kind"] == "syntax" and r["filter"] in marker_filters:
+                        has = True
+                        if not seen_bad:
+                            before_bad = True
+            return has, before_bad
         for hi, h in enumerate(d["histories"]):
+            # generator bookkeeping: local types of equal name, list-only files loaded first
+            resolved = {}  # marker value -> how it got into the history ("ok" / "failed")
+            for si, s in enumerate(h["steps"]):
+                rf = d["files"][h["ops"][si]["file"]]
+                has, before_bad = marker_use(rf)
+                mk = rf["main"].get("marker")
+                if rf.get("broken") or not mk:
+                    continue
+                if s["load"]["ok"] and has:
+                    if any(m != mk and how == "failed" for m, how in resolved.items()):
+                        cov_types["after_failed"].add((seed, hi))
+                    if any(m != mk and how == "ok" for m, how in resolved.items()):
+                        cov_types["after_ok"].add((seed, hi))
+                    resolved.setdefault(mk, "ok")
+                elif not s["load"]["ok"] and before_bad:
+                    resolved.setdefault(mk, "failed")
+            if h["steps"] and h["steps"][0]["load"]["ok"] and d["files"][h["ops"][0]["file"]]["main"].get("list_only") \
+                    and not d["files"][h["ops"][0]["file"]].get("bundles"):
+                cov_types["list_first"].add((seed, hi))
+                if h["steps"][0]["reports"]:
+                    cov_types["list_first_reporting"].add((seed, hi))
+
             def inp(upto):
                 return {"seed": seed, "history": hi, "ops": h["ops"][:upto + 1],
                         "files": {str(o["file"]): d["sources"][o["file"]] for o in h["ops"][:upto + 1]},
@@ -366,6 +422,16 @@ def run(c):
 
     nh = 60 if not thorough else 400
     one_round(c.seed, nh, "main")
+    for k, v in cov_types.items():
+        c.coverage["histories_" + k] = len(v)
+    c.obligation("generator:local-types", len(cov_types["after_ok"]) >= 5 and len(cov_types["after_failed"]) >= 2,
+                 "histories in which a file whose rules name its own type `marker` loads after a file that declared another `marker` and "
+                 "resolved it: %d after a successful load, %d after a FAILED load whose rule naming the type precedes the failing rule "
+                 "(need >= 5 / >= 2)" % (len(cov_types["after_ok"]), len(cov_types["after_failed"])))
+    c.obligation("generator:list-only-first", len(cov_types["list_first_reporting"]) >= 5,
+                 "histories whose first Load is a file without bundle imports whose syntax rules are ALL list patterns (statement / expression / "
+                 "declaration lists), observed by Run before any other Load: %d, %d of them with reports (need >= 5)" % (
+                     len(cov_types["list_first"]), len(cov_types["list_first_reporting"])))
     if thorough:
         for k in range(1, 4):
             one_round(c.seed * 7919 + k, 400, "t%d" % k)
